@@ -71,7 +71,9 @@ func (c05) Generate(prop string, r *simrt.RNG, tier string, run int) *simrt.Scen
 	sc.Knobs["cfg"] = bits
 	sc.Knobs["pruneheight"] = int64(r.Range(2, 8))
 	sc.Knobs["cache"] = int64([]int{0, 0, 2, 16}[r.Intn(4)])
-	sc.Knobs["chainparks"] = int64(r.Intn(2)) // commits' disk operations are scheduling points too
+	if r.Chance(1, 3) {
+		sc.Knobs["chainparks"] = 1 // commits' disk operations are scheduling points too
+	}
 	space := r.Range(6, 40)
 	key := func() []byte { return []byte(fmt.Sprintf("mavl-acc-%03d", r.Intn(space))) }
 	uniq := 0
@@ -87,7 +89,10 @@ func (c05) Generate(prop string, r *simrt.RNG, tier string, run int) *simrt.Scen
 		}
 		return subs
 	}
-	nops := r.Range(10, 80)
+	nops := r.Range(10, 60)
+	if tier == "thorough" {
+		nops = r.Range(10, 80)
+	}
 	jumpy := r.Chance(1, 4) // runs that cross the level thresholds
 	for i := 0; i < nops; i++ {
 		switch r.Weighted(30, 4, 3, 5, 6, 2, 1, 1, 2) {
